@@ -533,6 +533,7 @@ Definition th_done (th : thread) : bool :=
 Definition finished (s : state) : bool := forallb (fun t => th_done (st_thr s t)) (seq 0 (st_n s)).
 
 (** * The H3 yield point at which the real code is parked in each program point (0 = between operations,
+      83 = the harness' own point inside the closure it passes to Handle::modify: the cell's write lock is held,
       999 = no yield point: invisible to the forced-schedule harness) *)
 Definition yield_id (p : pc) : nat :=
   match p with
@@ -551,7 +552,7 @@ Definition yield_id (p : pc) : nat :=
   | PWrAskCall _ _ _ _ _ _ _ => 81
   | PWrNext _ _ _ => 41 | PWrSetMax _ _ => 50 | PWrUnlock _ => 19
   | PSgCas _ => 70 | PSgStore _ => 71 | PSgInit _ => 72
-  | PRlLock _ _ => 80 | PRlAssign _ _ | PRlUnlock _ _ => 999 | PRlGap _ _ => 82
+  | PRlLock _ _ => 80 | PRlAssign _ _ => 83 | PRlUnlock _ _ => 999 | PRlGap _ _ => 82
   end.
 
 (** * Runners used by the correspondence (executed with vm_compute by driver/props/c04.py, c12.py) *)
